@@ -152,7 +152,7 @@ func VH_Tokens() {
 		case 'S', 'k', 'w', 'p':
 			arg = vASCII("arg", vLen("arglen", vParam("arghole", 3)))
 		case '#':
-			arg = []string{"foo", "x=y", "-", "''", `""`}[vChoose("stray", 5)] // incl. empty quoted words
+			arg = []string{"foo", "x=y", "-", "''", `""`, `"x`, `'x y`, `\`}[vChoose("stray", 8)] // incl. empty quoted words and words whose quoting never ends
 		}
 		for j := 0; j < len(arg) && k != '#'; j++ {
 			vAssume(arg[j] != '\'') // so that single-quoting is exact
